@@ -134,6 +134,14 @@ def mandatory : List String := ["chain_id", "res_id", "ins_code", "res_name", "h
 /-- apply `f` to every value of a dict -/
 def mapVals (f : α → β) (d : List (String × α)) : List (String × β) := d.map (fun p => (p.1, f p.2))
 
+/-- dtype kind (numpy `dtype.kind`, `i` for any integer) of an annotation category as the harness builds it: the
+mandatory ones as `_AtomArrayBase.__init__` creates them, extra ones by the first letter of their name -/
+def kindOf (k : String) : String :=
+  if k == "res_id" then "i" else if k == "hetero" then "b"
+  else if mandatory.contains k then "U"
+  else match k.toList with
+    | 'i' :: _ => "i" | 'f' :: _ => "f" | 's' :: _ => "U" | 'b' :: _ => "b" | _ => "?"
+
 def pick (xs : List Tok) (sel : List Nat) : List Tok := sel.map (fun i => xs.getD i 0)
 
 def lookup (k : String) : List (String × α) → Option α
